@@ -2968,6 +2968,16 @@ class InterDifferingSerializer(InterVersionedFileRepository):
             parent_ids.difference_update(revision_ids)
             parent_ids.discard(_mod_revision.NULL_REVISION)
             parent_map = self.source.get_parent_map(parent_ids)
+            # Parent inventories the stacked repository already holds itself
+            # (copied by an earlier fetch) must not be added again: the new
+            # record may be stored differently (fulltext vs delta) from the
+            # existing one, which the index rejects as corruption.
+            held = self.target.inventories.without_fallbacks().get_parent_map(
+                [(parent_id,) for parent_id in parent_map]
+            )
+            parent_map = {
+                key: value for key, value in parent_map.items() if (key,) not in held
+            }
             # we iterate over parent_map and not parent_ids because we don't
             # want to try copying any revision which is a ghost
             for parent_tree in self.source.revision_trees(parent_map):
